@@ -223,8 +223,8 @@ theorem envPrepend_lifts (c : Nat) (hc : c ≠ 36) (append fwd : Bool) (var v : 
     not_mem_join c 36 _ (Ne.symm hc) hgood
   unfold envPrepend
   simp [startsWith_good c v hv, endsWith_good c v hv, henv,
-    expand_no_dollar env v hv.2.2, hsplitv, setEnvI]
-  rw [split_join_filter c oldl hold, interp_no_dollar env _ _ hnd]
+    expand_no_dollar env v hv.2.2, interp_no_dollar env _ v hv.2.2, hsplitv]
+  rw [split_join_filter c oldl hold]
 
 
 theorem join_cons_ne (c : Nat) (a : Str) (rest : List Str) (hr : rest ≠ []) :
@@ -331,7 +331,7 @@ theorem envPrepend_lifts_flags (c : Nat) (hc : c ≠ 36) (append pre app : Bool)
     cases app <;> simp [flagged]
   unfold envPrepend
   simp only [h1, List.length_singleton, h2, h3, h4, henv]
-  simp only [expand_no_dollar env v hv.2.2, hsplitv, setEnvI]
+  simp only [expand_no_dollar env v hv.2.2, interp_no_dollar env _ v hv.2.2, hsplitv]
   have hflt : List.filter (fun el => decide (el ≠ [])) (split [c] (join [c] oldl)) = oldl := by
     have := split_join_filter c oldl hold
     simpa using this
@@ -345,10 +345,10 @@ theorem envPrepend_lifts_flags (c : Nat) (hc : c ≠ 36) (append pre app : Bool)
   have a2 : (36 : Nat) ∉ J ++ [c] := by simp [hc', J, hnd]
   have a3 : (36 : Nat) ∉ c :: (J ++ [c]) := by simp [hc', J, hnd]
   cases pre <;> cases app
-  · simp [flagged, hsw, hew, interp_no_dollar env _ _ hnd]
-  · simp [flagged, hsw, hew]; rw [interp_no_dollar env _ _ a2]
-  · simp [flagged, hsw, hew, hew2]; rw [interp_no_dollar env _ _ a1]
-  · simp [flagged, hsw, hew, hew2]; rw [interp_no_dollar env _ _ a3]
+  · simp [flagged, hsw, hew]
+  · simp [flagged, hsw, hew]
+  · simp [flagged, hsw, hew, hew2]
+  · simp [flagged, hsw, hew, hew2]
 
 
 end EupsModel.PathAlg
